@@ -5,9 +5,8 @@ import (
 	"context"
 	"crypto/rand"
 	"crypto/rsa"
-	"crypto/x509"
-	"encoding/pem"
 	"fmt"
+	"github.com/google/gce-tcb-verifier/sign/transform"
 	"io"
 	"os"
 	"path/filepath"
@@ -272,19 +271,12 @@ func (a *Authority) PublicKeyOf(name string) *rsa.PublicKey {
 	if err != nil {
 		return nil
 	}
-	blk, _ := pem.Decode(p)
-	if blk == nil {
+	// the nonprod signers use their own "RSA PUBLIC KEY" encoding: decode with the repository's decoder
+	k, err := transform.DecodePEMRsaKey(p)
+	if err != nil {
 		return nil
 	}
-	if k, err := x509.ParsePKCS1PublicKey(blk.Bytes); err == nil {
-		return k
-	}
-	if k, err := x509.ParsePKIXPublicKey(blk.Bytes); err == nil {
-		if rk, ok := k.(*rsa.PublicKey); ok {
-			return rk
-		}
-	}
-	return nil
+	return k
 }
 
 // T0 is the bootstrap time used by the drivers; Tn(i) the time of the i-th later command.
